@@ -51,6 +51,53 @@ func genHistory(o histOpts) func(r *rand.Rand, tier string) *Case {
 		}
 		rounds := 2 + r.IntN(5)
 		tn := 0
+		if r.IntN(4) == 0 {
+			// drain shape: grow one store to a 3+ level tree, then remove most keys in a chosen order
+			// (root collapses, emptied branches), sequentially and without faults
+			sp := &c.Stores[0]
+			sp.Slot = pick(r, 2, 4)
+			n := 20 + r.IntN(40)
+			grow := Txn{Name: "grow", Mode: "w", End: "commit", MaxTime: 60}
+			for k := 1; k <= n; k++ {
+				grow.Ops = append(grow.Ops, Op{K: "upsert", S: 0, Key: 100 + k, Val: fmt.Sprintf("grow.%d", k)})
+			}
+			c.Phases = append(c.Phases, Phase{Kind: "group", Txns: []Txn{grow}})
+			order := make([]int, n)
+			for i := range order {
+				order[i] = 101 + i
+			}
+			switch r.IntN(4) {
+			case 1:
+				for i, j := 0, n-1; i < j; i, j = i+1, j-1 {
+					order[i], order[j] = order[j], order[i]
+				}
+			case 2:
+				r.Shuffle(n, func(i, j int) { order[i], order[j] = order[j], order[i] })
+			case 3: // odd then even
+				var o2 []int
+				for _, k := range order {
+					if k%2 == 1 {
+						o2 = append(o2, k)
+					}
+				}
+				for _, k := range order {
+					if k%2 == 0 {
+						o2 = append(o2, k)
+					}
+				}
+				order = o2
+			}
+			keep := r.IntN(3)
+			per := pick(r, 3, 10, n)
+			for i := 0; i < n-keep; i += per {
+				tx := Txn{Name: fmt.Sprintf("drain%d", i), Mode: "w", End: "commit", MaxTime: 60}
+				for j := i; j < i+per && j < n-keep; j++ {
+					tx.Ops = append(tx.Ops, Op{K: pick(r, "remove", "remove", "rmcur"), S: 0, Key: order[j]})
+				}
+				c.Phases = append(c.Phases, Phase{Kind: "group", Txns: []Txn{tx}})
+			}
+			rounds = r.IntN(2)
+		}
 		var faults []sim.FaultSpec
 		for rd := 0; rd < rounds; rd++ {
 			n := 1
@@ -75,6 +122,9 @@ func genHistory(o histOpts) func(r *rand.Rand, tier string) *Case {
 					}
 				}
 				txs = append(txs, tx)
+			}
+			if len(txs) > 1 && r.IntN(2) == 0 {
+				txs[1].CommitAfter = txs[0].Name // staggered: bodies overlap, commits do not
 			}
 			c.Phases = append(c.Phases, Phase{Kind: "group", Txns: txs})
 			if r.IntN(4) == 0 {
@@ -102,6 +152,17 @@ func histTag(c *Case, res *Result) string {
 		}
 	}
 	tag := ""
+	for _, sp := range c.Stores {
+		if sp.Name != "ticks" && sp.Slot == 2 {
+			tag = "/slot2"
+			break
+		}
+	}
+	for _, ph := range c.Phases {
+		if ph.Kind == "group" && len(ph.Txns) == 1 && ph.Txns[0].Name == "grow" {
+			tag += "/drain"
+		}
+	}
 	if vm[2] {
 		tag += "/ap"
 	}
@@ -122,14 +183,32 @@ func histTag(c *Case, res *Result) string {
 	if fault {
 		tag += "/fault"
 	}
-	conc := false
+	conc, overlapping, cold, restarted := false, false, false, false
 	for _, ph := range c.Phases {
+		if ph.Kind == "restart" {
+			restarted = true
+		}
 		if ph.Kind == "group" && len(ph.Txns) > 1 {
 			conc = true
+			if ph.Txns[1].CommitAfter == "" {
+				overlapping = true
+			}
+			if restarted {
+				cold = true
+			}
 		}
+	}
+	if crash {
+		cold = cold || conc // a crash restarts the process too
 	}
 	if conc {
 		tag += "/concurrent"
+		if !overlapping {
+			tag += "-staggered"
+		}
+		if cold {
+			tag += "/coldcache"
+		}
 	}
 	return tag
 }
